@@ -247,6 +247,18 @@ def part_lists_and_sums(ctx):
             elif not (k == 'out' and v['input_list'][1]['ok'] is True):
                 ctx.violation('clean second input not accepted', case, impl=v if k == 'err' else GG.canon_result(v))
             ctx.case(dict(case, outcome=v[1] if k == 'err' else 'graded'), nontrivial_key=('sib', a, second), kind='sibling:' + ('cheat' if cheat else 'clean'))
+        # a sibling that only feeds a DependentSampler (the answers never name it) is hidden from the student all the same
+        from mitxgraders import DependentSampler
+        lg2 = ListGrader(answers=['x*%d' % a, 'z'], subgraders=FormulaGrader(variables=['x', 'z'], sample_from={'z': DependentSampler(depends=['sibling_1'], formula='sibling_1 + 1')}), ordered=True)
+        for second, cheat in [('x*%d + 1' % a, False), ('z', False), ('sibling_1 + 1', True), ('z + 0*sibling_1', True), ('x*%d + 1 + sibling_1 - sibling_1' % a, True)]:
+            k, v = D.run_impl(lambda: lg2(None, ['x*%d' % a, second]))
+            case = {'part': 'sibling-via-dependent', 'a': a, 'second': second}
+            if cheat:
+                if not (k == 'err' and v[1] == 'UndefinedVariable'):
+                    ctx.violation('a sibling variable (used only by a DependentSampler) in the student\'s formula must be rejected as undefined', case, impl=v if k == 'err' else GG.canon_result(v))
+            elif not (k == 'out' and v['input_list'][1]['ok'] is True):
+                ctx.violation('clean second input not accepted', case, impl=v if k == 'err' else GG.canon_result(v))
+            ctx.case(dict(case, outcome=v[1] if k == 'err' else 'graded'), nontrivial_key=('sibdep', a, second), kind='sibling-dep:' + ('cheat' if cheat else 'clean'))
         ng = NumericalGrader(answers='%d' % a, blacklist=['sqrt'], forbidden_strings=['+'], required_functions=[])
         for stu, cheat in [('%d' % a, False), ('sqrt(%d)^2' % a, True), ('%d + 0' % a, True), ('%d +0' % a, True), ('%d - 0' % a, False), ('%d + sqrt(0)' % a, True), ('x', True)]:
             k, v = D.run_impl(lambda: ng(None, stu))
